@@ -79,6 +79,7 @@ struct ctx {                 /* one interpreter (one per thread in thread mode) 
                                 application that keeps them in a struct or on its stack does (same address, other content) */
   int cb_yield;              /* scheduled thread mode: the callback hands the turn over and waits for its next slot */
   char *cb_read_path;        /* the callback itself reads this file with the library (an allow-list, say) before it answers */
+  char *cb_rd[4];            /* ... or performs a nested LAYERED read (usr dir, etc dir, name, suffix) with its own main file and drop-ins */
 };
 
 static struct ctx main_ctx;
@@ -188,6 +189,9 @@ static bool the_callback(const char *filename, const void *data) {
   if (c->cb_read_path) {          /* a nested, successful read of another file: nothing of the outer call may depend on it */
     econf_file *inner = NULL; econf_err ie = econf_readFile(&inner, c->cb_read_path, "=", "#"); (void)ie; econf_freeFile(inner);
   }
+  if (c->cb_rd[2]) {
+    econf_file *inner = NULL; econf_err ie = econf_readDirs(&inner, c->cb_rd[0], c->cb_rd[1], c->cb_rd[2], c->cb_rd[3], "=", "#"); (void)ie; econf_freeFile(inner);
+  }
   bool verdict = true;
   if (c->cb_calls <= 64 && (c->cb_reject_mask >> (c->cb_calls - 1) & 1)) verdict = false;
   if (c->cb_reject_path && samepath(c->cb_reject_path, filename)) verdict = false;
@@ -220,6 +224,7 @@ static void cb_reset(struct ctx *c) {
   cb_clearlog(c);
   c->cb_reject_mask = 0; free(c->cb_reject_path); c->cb_reject_path = NULL;
   free(c->cb_read_path); c->cb_read_path = NULL;
+  for (int i = 0; i < 4; i++) { free(c->cb_rd[i]); c->cb_rd[i] = NULL; }
   for (int i = 0; i < c->cb_nlate; i++) { free(c->cb_late_path[i]); free(c->cb_late_data[i]); }
   c->cb_nlate = 0;
   for (int i = 0; i < c->cb_ndel; i++) { free(c->cb_del_trigger[i]); free(c->cb_del_victim[i]); }
@@ -363,6 +368,7 @@ static int run_cmd(struct ctx *c, char **t, int nt) {
     fprintf(o, "{\"op\":\"statlen\",\"len\":%ld}\n", n); free(p); return 0; }
 
   /* ----- callback configuration ----- */
+  if (!strcmp(op, "cbreaddirs")) { for (int i = 0; i < 4; i++) { free(c->cb_rd[i]); c->cb_rd[i] = tokstr(ARG(1 + i), NULL); } return 0; }
   if (!strcmp(op, "cbread")) { free(c->cb_read_path); c->cb_read_path = tokstr(ARG(1), NULL); return 0; }
   if (!strcmp(op, "cbreset")) { cb_reset(c); return 0; }
   if (!strcmp(op, "cbrejectk")) { c->cb_reject_mask = strtoull(ARG(1), NULL, 10); return 0; }
